@@ -25,9 +25,13 @@ RULE = (
     "{0, 1, 4242}. Oracle: the target's TEAL equals the TEAL produced by a pristine process that only compiled the target "
     "(hash seed 0), both times. (ii) In-process: a Hypothesis RuleBasedStateMachine with the same actions as rules; "
     "invariant: every compilation of (item, configuration) yields the text it yielded the first time in this process, "
-    "and repeated Router.compile_program on one router yields equal (approval, clear). non-trivial = the history contains "
+    "and repeated Router.compile_program on one router yields equal (approval, clear). (iii) One object, several "
+    "compilations: a generated program (subroutines, ABI values, commented Asserts, by-ref params) is built ONCE and "
+    "compiled under 2..5 configurations in turn (versions across the frame-pointer boundary, scratch_slots, "
+    "frame_pointers, assembleConstants; the first configuration again at the end); every result equals the compilation "
+    "of a freshly built copy under that configuration. non-trivial = the history contains "
     "a failing compilation, a frame-pointer compilation or a router before a target that uses ABI values or subroutines, "
-    "or runs under a hash seed != 0; distinct by (history, target, seed)."
+    "or runs under a hash seed != 0; a sequence (iii) with >=2 distinct versions or >=3 compilations; distinct by (history, target, seed)."
 )
 ASSUMPTIONS = ["subprocess interpreters are fresh (no shared state); the worker script vf/c11_worker.py drives pyteal only through public calls"]
 SHARDS = {"quick": 16, "thorough": 16}
@@ -83,10 +87,22 @@ def run_case(case, col=None):
 
 
 def judge(case):
+    if "seq_recipe" in case:
+        return run_sequence(case)
     return run_case(case)
 
 
 def shrinks(case):
+    if "seq_recipe" in case:
+        from ..shrink import case_shrinks
+
+        cf = case["cfgs"]
+        for i in range(len(cf)):
+            if len(cf) > 1:
+                yield dict(case, cfgs=cf[:i] + cf[i + 1:])
+        for c in case_shrinks({"recipe": case["seq_recipe"], "configs": []}):
+            yield dict(case, seq_recipe=c["recipe"])
+        return
     acts = case["actions"]
     for i in range(len(acts)):
         yield dict(case, actions=acts[:i] + acts[i + 1:])
@@ -162,6 +178,72 @@ def case_strategy(draw, tier, targets):
             # compile the same router object again
             acts.append(dict(act, key="h%d" % (len(acts) - 1)))
     return {"target": target, "actions": acts, "hashseed": draw(st.sampled_from([0, 0, 1, 4242]))}
+
+
+# ---------------------------------------------------------------- one object, several compilations (in process)
+
+
+def _compile_obj(pt, obj, recipe, cfg):
+    try:
+        return pt.compileTeal(obj, diff.mode_of(recipe), version=cfg["version"], assembleConstants=bool(cfg.get("assemble")), optimize=diff.optimize_of(cfg))
+    except diff.pyteal_errors() as e:
+        return "ERROR:%s" % type(e).__name__
+    except RecursionError:
+        return "ERROR:RecursionError"
+
+
+def run_sequence(case, col=None):
+    """the SAME expression object compiled under cfgs[0], cfgs[1], ... in turn; each result must equal the compilation
+    of a freshly built copy of the program under that configuration"""
+    import pyteal as pt
+    from ..recipe.build import Builder
+
+    recipe = case["seq_recipe"]
+    out = []
+    diff.reset_pyteal_state()
+    try:
+        want = []
+        for cfg in case["cfgs"]:
+            want.append(_compile_obj(pt, Builder(recipe, pt).build(), recipe, cfg))
+        if all(w.startswith("ERROR") for w in want):
+            if col:
+                col.cls("discard:sequence-never-compiles")
+            return out
+        obj = Builder(recipe, pt).build()
+        for i, cfg in enumerate(case["cfgs"]):
+            got = _compile_obj(pt, obj, recipe, cfg)
+            if got != want[i]:
+                out.append(("same-object-sequence", "compilation #%d of one expression object under %s, after compiling it under %s, differs from compiling a freshly built copy: %s" % (
+                    i + 1, cfg, case["cfgs"][:i], first_diff(want[i], got) if not (got.startswith("ERROR") or want[i].startswith("ERROR")) else "%s vs %s" % (want[i][:40], got[:40]))))
+                break
+    finally:
+        diff.reset_pyteal_state()
+    return out
+
+
+@st.composite
+def sequence_strategy(draw):
+    k = draw(st.integers(0, 3))
+    if k == 0:
+        r = draw(gen.core_recipe(max_budget=25, opts={"abi_vars": 3}))
+    else:
+        r = draw(gen_sub.sub_recipe(max_budget=35))
+    lo = legal.min_version(r)
+    n = draw(st.integers(2, 4))
+    cfgs = []
+    for i in range(n):
+        v = draw(st.sampled_from([x for x in (lo, 5, 6, 7, 8, 8, 9, 10) if x >= lo]))
+        cfg = {"version": v}
+        if draw(st.integers(0, 3)) == 0:
+            cfg["scratch_slots"] = draw(st.booleans())
+        if v >= 8 and draw(st.integers(0, 3)) == 0:
+            cfg["frame_pointers"] = False
+        if draw(st.integers(0, 5)) == 0:
+            cfg["assemble"] = True
+        cfgs.append(cfg)
+    if draw(st.booleans()):
+        cfgs.append(dict(cfgs[0]))
+    return {"seq_recipe": r, "cfgs": cfgs}
 
 
 class CompileMachine(RuleBasedStateMachine):
@@ -283,6 +365,24 @@ def shard(tier, seedv, k, n, col: Collector):
     hyp_run(lambda t: targets.append(t), target_strategy(), 3 if tier == "quick" else 12, env.derive(seedv, "targets"))
     col.classes.pop("hypothesis-duplicate", None)
     hyp_run(body, case_strategy(tier, targets), N_EX[tier], seedv, key=lambda c: c, col=col)
+    # one object, several compilations under different options
+
+    def sbody(case):
+        col.case()
+        res = run_sequence(case, col)
+        vs = [c["version"] for c in case["cfgs"]]
+        fp = [c["version"] >= 8 and c.get("frame_pointers", True) for c in case["cfgs"]]
+        col.cls("same-object-sequence")
+        if len(set(fp)) == 2:
+            col.cls("same-object-sequence:crosses frame-pointer boundary")
+            if case["seq_recipe"].get("routines"):
+                col.nontriv(sha(case))
+        elif len(set(vs)) >= 2 or len(vs) >= 3:
+            col.nontriv(sha(case))
+        for b, d in res:
+            col.fail(b, d, case)
+
+    hyp_run(sbody, sequence_strategy(), 45 if tier == "quick" else 800, env.derive(seedv, "sequence"), key=lambda c: c, col=col)
     # in-process machine
     CompileMachine.col = col
     try:
